@@ -54,6 +54,7 @@ type Violation struct {
 	Decisions []int
 	Trace     []string
 	Msg       string
+	Images    []ImageOut
 }
 
 type PathResult struct {
@@ -291,6 +292,8 @@ type Path struct {
 	notes    []string
 	tagCount map[string]int
 	trace    []string
+	images   []*crashImage
+	crashCalls int
 }
 
 func (p *Path) choices() []int {
@@ -406,6 +409,7 @@ func (i *interpreter) recordPanic(msg string) {
 		return
 	}
 	v.Inputs = p.inputsWithModel(model)
+	v.Images = p.imagesWithModel(model)
 	p.viol = append(p.viol, v)
 }
 
@@ -416,6 +420,7 @@ func (p *Path) inputVars() []*Term {
 			vs = append(vs, in.term)
 		}
 	}
+	vs = append(vs, p.imageTerms()...)
 	return vs
 }
 
@@ -597,7 +602,8 @@ func (i *interpreter) assert(c value, label, kf string, trigger value) {
 		switch res {
 		case Sat:
 			v := &Violation{Harness: p.w.ex.Name, Label: label, Kind: "assert", KF: kfid,
-				Inputs: p.inputsWithModel(model), Decisions: p.choices(), Trace: append([]string(nil), p.trace...)}
+				Inputs: p.inputsWithModel(model), Decisions: p.choices(), Trace: append([]string(nil), p.trace...),
+				Images: p.imagesWithModel(model)}
 			p.viol = append(p.viol, v)
 			return true
 		case Unknown:
